@@ -29,7 +29,10 @@ var c12Names = []c12Name{
 	{".txt", ""}, {".txt.twig", ""}, {"", "html"}, {".xml", "html"}, {".", "html"}, {".unknown.twig", "html"}, {".twig", "html"},
 }
 
-const c12Positions = 18
+const c12Positions = 22
+
+// inline sources (the template name is the source) ending in text that looks like a file extension
+var c12InlineSuffix = map[int]string{2: "v1.0 e.g. end", 3: " see notes.txt", 4: " app.js", 5: " x.css.twig"}
 
 // c12Scenario builds the templates of print position pos with the print expression E.
 // direct reports whether the value is printed directly to the final output.
@@ -88,6 +91,16 @@ func c12Scenario(pos int, ext, E string) (tpls map[string]string, main string, d
 		tpls[main] = "{% import '" + t("mac") + "' as mm %}A{{ mm.m(x, o, c) }}Z"
 		tpls[t("mac")] = "{% macro m(x, o, c) %}" + inner + "{% endmacro %}"
 		direct = false
+	// results of captures marked raw by the author: the print inside must have escaped the value (exactly once)
+	case 18:
+		tpls[main] = "{% macro m(x, o, c) %}" + inner + "{% endmacro %}A{{ _self.m(x, o, c)|raw }}Z"
+	case 19:
+		tpls[main] = "{% set cap %}" + inner + "{% endset %}A{{ cap|raw }}Z"
+	case 20:
+		tpls[main] = "{% extends '" + t("base") + "' %}{% block b %}{{ parent()|raw }}{% endblock %}"
+		tpls[t("base")] = "A{% block b %}" + inner + "{% endblock %}Z"
+	case 21:
+		tpls[main] = "A{% if false %}{% block b %}" + inner + "{% endblock %}{% endif %}{{ block('b')|raw }}Z"
 	}
 	return
 }
@@ -170,9 +183,9 @@ func c12Run(c core.Case) core.Result {
 			return core.Skipped("inline-needs-single-template")
 		}
 		src := tpls[main]
-		if ni == -2 {
-			src = strings.Replace(src, "Z", "Zv1.0 e.g. end", 1)
-			if !strings.HasSuffix(src, "Zv1.0 e.g. end") {
+		if ni <= -2 {
+			src = strings.Replace(src, "Z", "Z"+c12InlineSuffix[-ni], 1)
+			if !strings.HasSuffix(src, "Z"+c12InlineSuffix[-ni]) {
 				return core.Skipped("inline-dot-suffix")
 			}
 		}
@@ -219,8 +232,8 @@ func c12Run(c core.Case) core.Result {
 		return core.Violation("error", desc+" fails: "+err.Error())
 	}
 	suffix := "QZ"
-	if ni == -2 {
-		suffix = "QZv1.0 e.g. end"
+	if ni <= -2 {
+		suffix = "QZ" + c12InlineSuffix[-ni]
 	}
 	if !direct {
 		if mod == 1 || mod == 6 {
@@ -229,7 +242,7 @@ func c12Run(c core.Case) core.Result {
 		if typ == "" {
 			return core.Okay(false, "txt")
 		}
-		if msg := c12Escaper(typ).alphabet(strings.TrimSuffix(out, "v1.0 e.g. end")); msg != "" {
+		if msg := c12Escaper(typ).alphabet(out); msg != "" {
 			return core.Violation("unescaped", fmt.Sprintf("%s renders %q, which is not inert for %s: %s", desc, out, typ, msg))
 		}
 		return core.Okay(true, out)
@@ -287,12 +300,12 @@ func c12Levels(tier string) []core.Level {
 		}
 		return r
 	}
-	names := append(all(len(c12Names)), -1, -2)
+	names := append(all(len(c12Names)), -1, -2, -3, -4, -5)
 	lv := []core.Level{
-		{Name: "18 print positions x variable x all 13 payloads x all 15 template names x no modifier", Gen: func(emit func(core.Case)) {
+		{Name: "22 print positions x variable x all 13 payloads x all 18 template names x no modifier", Gen: func(emit func(core.Case)) {
 			gen(all(len(c12Payloads)), []int{0}, []int{0}, names, emit)
 		}},
-		{Name: "18 positions x 6 value forms x 13 payloads x 15 names x 8 modifiers (full product)", Gen: func(emit func(core.Case)) {
+		{Name: "22 positions x 6 value forms x 13 payloads x 18 names x 8 modifiers (full product)", Gen: func(emit func(core.Case)) {
 			gen(all(len(c12Payloads)), all(len(c12Forms)), all(c12Mods), names, emit)
 		}},
 	}
@@ -303,7 +316,7 @@ func init() {
 	core.Register(&core.Check{
 		ID:       "C12",
 		Category: "exploration",
-		Rule: "full product of 18 print positions (top level, if / else / elseif branch, for body, for-else, block, nested block, overriding block of a child, block via parent(), inherited block, included template, embedded template, embed override block, set-capture body, filter section, macro body, imported macro) x 6 value forms (variable, attribute, function result, concatenation, conditional, interpolation) x 13 payloads (< > \" ' & </script> \\ ; newline, multi-byte, astral, mixed) x 15 template names (html, js, css, txt with and without .twig, no extension, unknown extension, trailing dot, inline source with and without a '.') x 8 modifiers (none, raw, escape, escape('html'), escape(own type), escape('js'), value marked safe for the same / another type), in a twig.New environment. " +
+		Rule: "full product of 22 print positions (top level, if / else / elseif branch, for body, for-else, block, nested block, overriding block of a child, block via parent(), inherited block, included template, embedded template, embed override block, set-capture body, filter section, macro body, imported macro; macro result / capture / parent() / block() printed with |raw) x 6 value forms (variable, attribute, function result, concatenation, conditional, interpolation) x 13 payloads (< > \" ' & </script> \\ ; newline, multi-byte, astral, mixed) x 18 template names (html, js, css, txt with and without .twig, no extension, unknown extension, trailing dot, inline sources without a dot, with dots, and ending in '.txt' / '.js' / '.css.twig') x 8 modifiers (none, raw, escape, escape('html'), escape(own type), escape('js'), value marked safe for the same / another type), in a twig.New environment. " +
 			"Oracle: expected content type = registered escaper of the extension, none for txt, html otherwise; a directly printed value must decode (decoder of that context) to the payload and lie in the context's inert alphabet: escaped exactly once; raw and same-type safe values verbatim; values reaching the output through a capture / macro result / parent() must be inert. distinct = distinct configuration; non-trivial = an assertion was made",
 		Assumptions: []string{
 			"an explicit html escape inside a js/css template and an explicit js escape inside a css template are ambiguous ('no double escaping' vs. 'escaped for the template's type') and not asserted",
